@@ -104,7 +104,13 @@ func (ex *Exec) exprN(st *State, e ast.Expr, k func(*State, []Val)) {
 	case *ast.FuncLit:
 		one(st, ex.funcLit(st, x))
 	case *ast.TypeAssertExpr:
-		ex.typeAssert(st, x, false, k)
+		commaOk := false
+		if tv, has := fr.info.Types[x]; has {
+			if _, isTuple := tv.Type.(*types.Tuple); isTuple {
+				commaOk = true
+			}
+		}
+		ex.typeAssert(st, x, commaOk, k)
 	default:
 		panic(unsupported(fmt.Sprintf("expression %T", e)))
 	}
@@ -290,6 +296,28 @@ func (ex *Exec) addrOfExpr(st *State, xx ast.Expr, pty types.Type, k func(*State
 				k(st, Val{T: sl.T, S: sl.S, Go: pty})
 			})
 			return
+		}
+		if _, stT, _ := structOf(ft); stT != nil {
+			if sel := fr.info.Selections[in]; sel != nil && sel.Kind() == types.FieldVal {
+				if _, _, basePtr := structOf(ex.typeOf(fr, in.X)); basePtr {
+					// the address of a struct-typed field of a heap object is a reference of its own,
+					// an injective function of the enclosing object (used for embedded sync.Map etc.;
+					// only ghost state may hang off it)
+					ex.expr(st, in.X, func(st *State, base Val) {
+						ex.nilCheck(st, base, in.Pos(), func(st *State) {
+							fn := sym("fieldaddr_" + ex.w.typeString(ex.typeOf(st.frame, in.X)) + "." + sel.Obj().Name())
+							if !ex.w.declared[fn] {
+								ex.w.declFun(fn, []*Sort{sRef}, sRef)
+								inv := sym("fieldaddr_inv_" + ex.w.typeString(ex.typeOf(st.frame, in.X)) + "." + sel.Obj().Name())
+								ex.w.declFun(inv, []*Sort{sRef}, sRef)
+								ex.w.axioms = append(ex.w.axioms, fmt.Sprintf("(forall ((r Ref)) (! (and (= (%s (%s r)) r) (not (= (%s r) nil))) :pattern ((%s r))))", inv, fn, fn, fn))
+							}
+							k(st, Val{T: sApp(fn, base.T), S: sRef, Go: pty})
+						})
+					})
+					return
+				}
+			}
 		}
 		panic(unsupported("address of field " + exprStr(in)))
 	default:
